@@ -1,3 +1,4 @@
+\* batch trace validation of observed loads / saves / defects (TRACE_FILE in the environment); UNIVERSE is unused here
 SPECIFICATION TraceSpec
 CONSTANTS
   UNIVERSE = "quick"
